@@ -195,7 +195,7 @@ def delem(e):
     if isinstance(e, D.Image):
         return "(DImage %s %s %s)" % (opt(s, e.alt_text), opt(s, e.content_type), img_src(e))
     if isinstance(e, D.Bookmark):
-        return "(DBookmark %s)" % s(e.name)
+        return "(DBookmark %s)" % s(e.name if e.name is not None else "None")
     if isinstance(e, D.NoteReference):
         return "(DNoteRef %s %s)" % (s(e.note_type), s(e.note_id))
     if isinstance(e, D.CommentReference):
@@ -270,3 +270,29 @@ def delem_from_json(j):
     if t == "CommentReference":
         return D.comment_reference(j["comment_id"])
     raise TypeError(t)
+
+
+# ---------------------------------------------------------------- XML trees
+def xml(x):
+    from mammoth.docx.xmlparser import XmlElement, XmlText
+    if isinstance(x, XmlText):
+        return "(XText %s)" % s(x.value)
+    if isinstance(x, XmlElement):
+        return "(XElem %s %s %s)" % (s(x.name), attrs(x.attributes), lst(xml, x.children))
+    raise TypeError(x)
+
+
+def attach_image_sources(elements):
+    """Walk document elements returned by the reader; open every image once and record what it yields."""
+    from mammoth import documents as D
+    from mammoth.docx.files import InvalidFileReferenceError
+    for e in elements:
+        if isinstance(e, D.Image):
+            if not hasattr(e, "_verif_src"):
+                try:
+                    with e.open() as fh:
+                        e._verif_src = ("data", list(fh.read()))
+                except InvalidFileReferenceError as err:
+                    e._verif_src = ("error", str(err))
+        for c in getattr(e, "children", None) or []:
+            attach_image_sources([c])
